@@ -77,6 +77,9 @@ def expr_src(e):
         return '(%s) == (%s)' % (expr_src(e['a']), expr_src(e['b']))
     if k == 'gt':
         return '(%s) > (%s)' % (expr_src(e['a']), expr_src(e['b']))
+    if k == 'raw':
+        # expression text written out by the generator (no model semantics)
+        return e['s']
     raise ValueError(k)
 
 
